@@ -318,7 +318,7 @@ class Waiting(State):
         self.done_callback = done_callback
         self.msg = msg
         self.data = data
-        self._waiting_future: futures.Future = futures.Future()
+        self._waiting_future: futures.Future = self.process.loop.create_future()
 
     def save_instance_state(self, out_state: SAVED_STATE_TYPE, save_context: persistence.LoadSaveContext) -> None:
         super().save_instance_state(out_state, save_context)
@@ -332,7 +332,7 @@ class Waiting(State):
             self.done_callback = getattr(self.process, callback_name)
         else:
             self.done_callback = None
-        self._waiting_future = futures.Future()
+        self._waiting_future = self.process.loop.create_future()
 
     def exit(self) -> None:
         super().exit()
@@ -352,7 +352,7 @@ class Waiting(State):
             # Deal with the interruption (by raising) but make sure our internal
             # state is back to how it was before the interruption so that we can be
             # re-executed
-            self._waiting_future = futures.Future()
+            self._waiting_future = self.process.loop.create_future()
             if self._wakeup is not None:
                 self._deliver(*self._wakeup)
                 self._wakeup = None
